@@ -4,10 +4,12 @@ package main
 // root as a term over the transaction hashes T(0..n-1).  The term is evaluated with the real double SHA-256
 // over (a) random 32-byte hashes (incl. labellings with repeated hashes) and compared with
 // common.ComputeMerkleRoot, and (b) the hashes of real transactions and compared with
-// Block.RebuildMerkleRoot and with the root check inside Block.Deserialization.
+// Block.RebuildMerkleRoot and with the root check inside Block.Deserialization; (c) all of it again from 16 / 11
+// goroutines at once in two seeded orders.
 
 import (
 	"fmt"
+	"sync"
 
 	"github.com/polynetwork/poly/common"
 	"github.com/polynetwork/poly/core/genesis"
@@ -121,7 +123,115 @@ func c03(args []string) {
 			}
 		}
 	}
-	vio.Emit(obj{"summary": true, "rows": len(rows), "evaluations": evals, "distinct": len(distinct)})
+	// (c) the same rows under CONCURRENT evaluation.  The node calls these functions from several goroutines (block
+	// decoding in p2p/sync workers, proposers rebuilding roots), and the statement quantifies over inputs, not over
+	// schedules: a row whose result is right alone and wrong next to other calls is a violation.
+	type cjob struct {
+		kind string // "raw" | "rebuild" | "decode"
+		n    int
+		in   []common.Uint256
+		txs  []*types.Transaction
+		raw  []byte
+		exp  [32]byte
+	}
+	var jobs []cjob
+	{
+		rng := vio.NewRNG(seed*7 + 99)
+		tab := make([][32]byte, maxN+1)
+		for i := range tab {
+			copy(tab[i][:], rng.Bytes(32))
+		}
+		env := &termeval.Env{Tx: func(i int) [32]byte { return tab[i] }}
+		for _, r := range rows {
+			row := geto(r, "row")
+			n := geti(row, "n")
+			in := make([]common.Uint256, n)
+			for i := 0; i < n; i++ {
+				in[i] = common.Uint256(tab[labOf(lab, i)])
+			}
+			jobs = append(jobs, cjob{kind: "raw", n: n, in: in, exp: mustHash(env, row["root"])})
+		}
+		if lab == "id" {
+			txs := make([]*types.Transaction, maxN+1)
+			for i := range txs {
+				txs[i] = genesis.NewInvokeTransaction(vio.NewRNG(seed*17+uint64(i)).Bytes(8+i%5), uint32(i)+uint32(seed)*7000+500000)
+			}
+			tenv := &termeval.Env{Tx: func(i int) [32]byte { return [32]byte(txs[i].Hash()) }}
+			for _, r := range rows {
+				row := geto(r, "row")
+				n := geti(row, "n")
+				exp := mustHash(tenv, row["root"])
+				hdr := &types.Header{Height: uint32(n), Timestamp: 1, ConsensusPayload: []byte{}, TransactionsRoot: common.Uint256(exp)}
+				sink := common.NewZeroCopySink(nil)
+				if err := (&types.Block{Header: hdr, Transactions: txs[:n]}).Serialization(sink); err != nil {
+					vio.Fatal("block serialization: %v", err)
+				}
+				jobs = append(jobs, cjob{kind: "rebuild", n: n, txs: txs[:n], exp: exp}, cjob{kind: "decode", n: n, raw: sink.Bytes(), exp: exp})
+			}
+		}
+	}
+	// one evaluation of a job: "" = agrees with the spec term
+	evalJob := func(j *cjob) string {
+		var bad string
+		pn := vio.Safe(func() {
+			switch j.kind {
+			case "raw":
+				in := append([]common.Uint256{}, j.in...)
+				if got := common.ComputeMerkleRoot(in); [32]byte(got) != j.exp {
+					bad = "ComputeMerkleRoot = " + vio.Hex(got[:])
+				}
+			case "rebuild":
+				b := &types.Block{Header: &types.Header{}, Transactions: j.txs}
+				b.RebuildMerkleRoot()
+				if [32]byte(b.Header.TransactionsRoot) != j.exp {
+					bad = "RebuildMerkleRoot = " + vio.Hex(b.Header.TransactionsRoot[:])
+				}
+			case "decode":
+				if _, err := types.BlockFromRawBytes(append([]byte{}, j.raw...)); err != nil {
+					bad = "block with the reference root refused: " + err.Error()
+				}
+			}
+		})
+		if pn != "" {
+			return pn
+		}
+		return bad
+	}
+	seqBad := make([]bool, len(jobs))
+	for i := range jobs {
+		seqBad[i] = evalJob(&jobs[i]) != "" // already reported by the sequential passes above
+	}
+	reps := atoi(args[2])
+	concBad := map[int]string{}
+	var mu sync.Mutex
+	for pass, workers := range []int{16, 11} {
+		order := vio.NewRNG(seed + uint64(pass)*5).Perm(len(jobs) * reps)
+		vio.ParMap(len(order), workers, func(k int) {
+			i := order[k] % len(jobs)
+			if r := evalJob(&jobs[i]); r != "" && !seqBad[i] {
+				mu.Lock()
+				if _, ok := concBad[i]; !ok {
+					concBad[i] = r
+				}
+				mu.Unlock()
+			}
+		})
+		evals += len(order)
+	}
+	// a job that failed next to other calls is evaluated alone once more: right alone => the concurrency decided it
+	for i, r := range concBad {
+		alone := evalJob(&jobs[i])
+		distinct[fmt.Sprintf("conc/%s/%s/%d", jobs[i].kind, lab, jobs[i].n)] = true
+		if reported < 40 {
+			reported++
+			vio.Emit(obj{"violation": "root-differs-under-concurrent-calls", "n": jobs[i].n, "lab": lab,
+				"detail": obj{"api": jobs[i].kind, "expected": vio.Hex(jobs[i].exp[:]), "concurrent": r, "alone_again": alone, "failing_jobs": len(concBad), "jobs": len(jobs)}})
+		}
+	}
+	for i := range jobs {
+		distinct[fmt.Sprintf("conc/%s/%s/%d", jobs[i].kind, lab, jobs[i].n)] = true
+	}
+	vio.Emit(obj{"summary": true, "rows": len(rows), "evaluations": evals, "distinct": len(distinct), "concurrent_failures": len(concBad)})
 }
 
 func labOf(lab string, i int) int {
